@@ -153,7 +153,7 @@ PROPS['C07'] = dict(
     assumptions=['the address stays unavailable to others for the advertised time: C05/C11 (LeaseProofs), with reserved_ns as the duration passed to UpdateClient'],
 )
 
-PROPS['C10']['tests'] = PROPS['C10']['tests'] + ['TestC10Malformed', 'TestC10Handlers']
+PROPS['C10']['tests'] = PROPS['C10']['tests'] + ['TestC10Malformed', 'TestC10Handlers', 'TestC10Flood']
 PROPS['C10']['panic_is_violation'] = {1001}
 PROPS['C10']['spec_equal_tags'] = {1001}
 PROPS['C10']['rule'] = SERVER_RULE + (' PLUS the receive path (IPv4 -> UDP -> DHCP -> options -> OUI lookup) run in-process on a malformed stream: frame and DHCP-payload '
